@@ -627,7 +627,7 @@ def oracle_case(case):
             if c[1] < prev_cal[1] - tol:
                 shown = (lambda v: __import__('datetime').date.fromordinal(v).isoformat()) if c[0] == 'date' else (lambda v: f'{v:.6f}')
                 kind_ = 'calendar-order'
-                if c[0] == 'date' and sim.t.unit == 'month' and prev_cal[1] - c[1] <= 4 and any(m_.t.unit != 'month' for m_ in mods):
+                if c[0] == 'date' and sim.t.unit == 'month' and prev_cal[1] - c[1] <= 4:
                     kind_ = 'calendar-order-month'      # recorded defect: calendar months (dates) vs mean-length months (abstvec)
                 fails.append((kind_, f'call #{idx} {lab}, whose own clock reads {shown(c[1])}, runs after {prev_lab}, whose own clock read {shown(prev_cal[1])}'))
         if c is not None:
@@ -656,7 +656,7 @@ def oracle_case(case):
             sig['what'] = what
         note = {'timepoints-closer-than-eps-x-nfuncs': ' (two owners have time points closer than time_eps x number of functions)',
                 'module-names-collide': ' (two modules share a name, or a module is named "people")', 'none': '',
-                'month-sim-mean-month-length': ' (month-unit sim: its own steps follow calendar months, modules of other units are placed with 30.4375-day months)'}[c]
+                'month-sim-mean-month-length': ' (month-unit sim: its own steps follow calendar months, modules of other units or with an own start are placed with 30.4375-day months)'}[c]
         out.append(dict(signature=sig, what=f'[{what}] {msg}{note}'))
     return out
 
